@@ -366,7 +366,7 @@ func genCase(t *rapid.T) Case {
 				pos := 0
 				switch rapid.IntRange(0, 5).Draw(t, "unhold?") {
 				case 0: // before the first arrival (nobody sees the held download)
-				case 1, 2: // after this phase's release and everything else
+				case 1: // after this phase's release and everything else
 					pos = len(ph.Events)
 				default:
 					pos = rapid.IntRange(0, len(ph.Events)).Draw(t, "unholdpos")
